@@ -43,13 +43,16 @@ def plan_like(ctx, prop, runs, extra_cases=None, soups=0, sims=None):
 def run_c02(ctx):
     thorough = ctx.tier == "thorough"
     runs = [("plan_seq", "plan_seq", {"MaxOps": 4 if thorough else 3, "DbRows": 2, "CoreFrom": 3 if thorough else 2})]
+    # four operators in a row from the nine whose order matters most (sorts, filters, limits, top)
+    runs.append(("plan_seq_order4", "plan_seq", {"MaxOps": 5 if thorough else 4, "DbRows": 2, "CoreFrom": 0}))
     if thorough:
         runs.append(("plan_seq_rows3", "plan_seq", {"MaxOps": 2, "DbRows": 3}))
     # thorough: random longer sequences (up to 7 operators) by simulation
     sims = [("plan_seq_long", "plan_seq", {"MaxOps": 7, "DbRows": 1, "CoreFrom": 2}, "num=120", 8)] if thorough else None
     tr = plan_like(ctx, "C02", runs, sims=sims)
     return {"exhaustive": True, "assumptions": ASSUME, "coverage": {
-        "rule": "every sequence of up to MaxOps operators from a menu of 22 operator instances (where, project incl. renaming "
+        "rule": "every sequence of up to 4 (5) operators from the nine sort / filter / limit / top instances, and "
+                "every sequence of up to MaxOps operators from a menu of 25 operator instances (where, project incl. renaming "
                 "and reordering, extend named/unnamed, summarize with and without keys / aggregates / trailing comma, sort with "
                 "every default, take, top, count, as, render; third and later positions from one representative per kind) is a "
                 "state of the choice tree; after every operator TLC checks that the QuerySplit model's statement, read and "
